@@ -87,7 +87,8 @@ def check(prog: Program, tier: str) -> Result:
     _r12_5(prog, res)
     _r12_6(prog, res)
     _r12_7(prog, res)
-    res.floors.update({"R12.1": 18, "R12.2": 11, "R12.3": 3, "R12.4": 8, "R12.5": 1, "R12.6": 4, "R12.7": 4})
+    _r12_8(prog, res)
+    res.floors.update({"R12.1": 18, "R12.2": 11, "R12.3": 3, "R12.4": 8, "R12.5": 1, "R12.6": 4, "R12.7": 4, "R12.8": 1})
     return res
 
 
@@ -526,6 +527,31 @@ def _r12_5(prog: Program, res: Result) -> None:
         res.decide(ok, "R12.5", fn.loc(tail), fn.fq, "result after the loop is exhausted", "no match" if ok else "falling out of the expansion loop no longer means 'no match'")
 
 
+def _r12_8(prog: Program, res: Result) -> None:
+    """A wildcard stands for SOME syntax tree.  An optional child that is absent (the value of a bare `return`, the type of a
+    bare `except:`, the bounds of `a[:]`, a missing annotation) is None in the tree, and `isinstance(None, object)` holds - so
+    an untyped wildcard used to match it, bind None, and the substitution then called unparse(None).  Obligation: every
+    return of a successful match from the wildcard matcher is reached only when the node is known not to be None."""
+    from ..pathcond import PathAnalysis
+    fn = prog.funcs.get(("core", "_match_wildcard"))
+    if fn is None:
+        raise AnalysisError("anchor core._match_wildcard not found")
+    node = fn.posparams[0]
+    pa = PathAnalysis(prog, fn)
+    test = ast.parse(f"{node} is None", mode="eval").body
+    for r in walk_own(fn.node):
+        if not isinstance(r, ast.Return) or r.value is None:
+            continue
+        if isinstance(r.value, ast.Tuple) and not r.value.elts:
+            res.ok("R12.8", fn.loc(r), fn.fq, norm(r), "answers 'no match'", trivial=True)
+            continue
+        ok, _why = pa.holds_at(r, lambda w: pa.formula(test, w, False))
+        res.decide(ok, "R12.8", fn.loc(r), fn.fq, short(r, 80),
+                   f"reached only when `{node}` is not None" if ok else
+                   f"a match can be answered for `{node} is None`: the wildcard then stands for an absent child (`return {{{{x}}}}` matches a bare `return`, "
+                   "`except {{e}}:` a bare `except:`), binds None, and format_template / the rules that use the binding call unparse(None)")
+
+
 def _r12_7(prog: Program, res: Result) -> None:
     """Every element of a list pattern takes part, as written: the list matcher and the generator of quantifier expansions
     count over the template they were GIVEN.  The template parameter is never rebound, sliced, filtered or edited in place
@@ -571,6 +597,11 @@ def _r12_7(prog: Program, res: Result) -> None:
 from ..selftest import Variant  # noqa: E402
 
 VARIANTS = [
+    Variant("wildcard-matches-absent-child", "FIRE", "core",
+            "    if node is None:\n        # An optional child that is absent, like the value of a bare return. A wildcard stands for\n        # some piece of code, and there is none.\n        return ()\n\n", "", "R12.8"),
+    Variant("wildcard-absent-child-tested-by-isinstance", "SILENT", "core",
+            "    if node is None:\n        # An optional child that is absent, like the value of a bare return. A wildcard stands for\n        # some piece of code, and there is none.\n        return ()\n",
+            "    if node is None or template is None:\n        return ()\n"),
     Variant("pattern-list-copied", "SILENT", "core", "    node_counts = {}\n    for i, node in enumerate(template):", "    template = list(template)\n    node_counts = {}\n    for i, node in enumerate(template):"),
     Variant("pattern-list-deduplicated", "FIRE", "core", "    node_counts = {}\n    for i, node in enumerate(template):",
             "    template = [node for i, node in enumerate(template) if i == 0 or node != template[i - 1] or not isinstance(node, ZeroOrMany)]\n    node_counts = {}\n    for i, node in enumerate(template):", "R12.7"),
